@@ -165,7 +165,11 @@ class HostKeyTest:
                 try:
                     kex_group.send_init(s)
                     kex_reply = kex_group.recv_reply(s)
-                    raw_hostkey_bytes = kex_reply if kex_reply is not None else b''
+                    if kex_reply is None:
+                        # The connection was lost before the reply arrived: no host key was presented, so there is nothing to record (an empty key would be reported as a 0-bit key with the fingerprint of an empty blob).  Move on to the next host key type.
+                        s.close()
+                        continue
+                    raw_hostkey_bytes = kex_reply
                 except KexDHException:
                     msg = "Failed to parse server's host key."
                     if not out.debug:
